@@ -249,7 +249,12 @@ def cli_part(check, bad, good):
             with open(out, "w") as f:
                 f.write("PRE-EXISTING\n")
             before = snapshot(sc.dir)
-            r = run_cli(["--lang", lang, "-o", out, sc.path("proj")] + lang_args(lang), cwd=sc.dir)
+            # both arrival orders of the two per-file results at the collector (the offending file first / last)
+            for order in (("0,1", "1,0") if is_bad else (None,)):
+                r = run_cli(["--lang", lang, "-o", out, sc.path("proj")] + lang_args(lang), cwd=sc.dir,
+                            env={"TYPESHARE_VERIF_ORDER": order} if order else None)
+                if r["timed_out"] or r["rc"] == 0:
+                    break
             after = snapshot(sc.dir)
             check.saw(("cli", lang, c["text"]), nontrivial=True)
             check.count("cli-" + ("rejected" if is_bad else "skipped-twin"))
